@@ -699,19 +699,22 @@ def droppedCommaDoc : Option WTok → Doc
 
 def VarDefCst.isBare (v : VarDefCst) : Bool := v.ineq.isNone && v.isPart.isNone
 
+/-- the `vars_doc` of `impl Doc for Node<Option<Policy>>`: on one line (if it fits) when no scope variable is
+    constrained, otherwise one variable per line -/
+def scopeDoc (iw : Nat) (p : PolicyCst) : Doc :=
+  let resourceDoc := varDefDoc iw p.resource ++ droppedCommaDoc p.trailingComma
+  if p.principal.isBare && p.action.isBare && p.resource.isBare then
+    .group (.nest iw (varDefDoc iw p.principal ++ (tokDoc p.comma1 .space ++ (varDefDoc iw p.action ++
+      (tokDoc p.comma2 .space ++ resourceDoc)))))
+  else
+    .nest iw (.hardline ++ (varDefDoc iw p.principal ++ (tokDoc p.comma1 .hardline ++ (varDefDoc iw p.action ++
+      (tokDoc p.comma2 .hardline ++ resourceDoc))))) ++ .hardline
+
 /-- `impl Doc for Node<Option<Policy>>` -/
 def policyToDoc (iw : Nat) (p : PolicyCst) : Doc :=
-  let resourceDoc := varDefDoc iw p.resource ++ droppedCommaDoc p.trailingComma
-  let varsDoc :=
-    if p.principal.isBare && p.action.isBare && p.resource.isBare then
-      .group (.nest iw (varDefDoc iw p.principal ++ (tokDoc p.comma1 .space ++ (varDefDoc iw p.action ++
-        (tokDoc p.comma2 .space ++ resourceDoc)))))
-    else
-      .nest iw (.hardline ++ (varDefDoc iw p.principal ++ (tokDoc p.comma1 .hardline ++ (varDefDoc iw p.action ++
-        (tokDoc p.comma2 .hardline ++ resourceDoc))))) ++ .hardline
   annotsDoc p.annots ++
     ((leadingDoc p.effect.leading ++ .group (tokDoc p.effect.noLead ++ (.line ++ tokDoc p.lp))) ++
-      (varsDoc ++ (tokDoc p.rp (if p.conds.isEmpty then .nil else .hardline) ++
+      (scopeDoc iw p ++ (tokDoc p.rp (if p.conds.isEmpty then .nil else .hardline) ++
         (condsDoc iw p.conds ++ tokDoc p.semi))))
 
 /-- one document for a policy set (policies separated by a blank line); `renderPolicies` is what fmt.rs does -/
